@@ -1,5 +1,5 @@
-"""C13 — builders refuse inconsistent constructions (model: coq/model/BuilderErr.v + Tracked.v,
-spec: coq/spec/BuilderErrS.v).
+"""C13 — builders refuse inconsistent constructions (model: coq/model/BuilderErr.v + Tracked.v + BuilderParts.v,
+spec: coq/spec/BuilderErrS.v + BuilderPartsS.v).
 
 Builders are context managers: calls are observed plainly AND from inside real `with` blocks (conditional
 sessions: statements ["with", contexts, body]; other kinds: case["ctx"] selects enclosing builders) - what is
@@ -761,9 +761,179 @@ def obs_serialise(case, T):
     return {"exc": exc, "nodes": nodes, "nctx": len(cms)}
 
 
+# ------------------------------------------------------------------ round 5: programs of parts, every serialiser
+
+POPS = {"noop": "PNoop", "maketuple": "PMakeTuple", "unpack": "PUnpackTuple", "callindirect": "PCallIndirect",
+        "loadconst": "PLoadConst"}
+SERIALISERS = ["to_json", "pkg_json", "pkg_bytes", "pkg_str", "pkg_text_bytes"]
+
+
+def run_serialiser(h, via):
+    """The public ways of serialising a HUGR.  Package.to_json is deprecated: if it is gone, to_str is used."""
+    import warnings
+    from hugr.package import Package
+    from hugr.envelope import EnvelopeConfig
+    with warnings.catch_warnings():
+        warnings.simplefilter("ignore")
+        if via == "to_json":
+            return h.to_json()
+        pkg = Package([h])
+        if via == "pkg_json" and hasattr(pkg, "to_json"):
+            return pkg.to_json()
+        if via == "pkg_bytes":
+            return pkg.to_bytes()
+        if via == "pkg_text_bytes":
+            return pkg.to_bytes(EnvelopeConfig.TEXT)
+        return pkg.to_str()
+
+
+def obs_serparts(case, T):
+    """A program described by what it does: the chain root (Module + main / Dfg) > nested Dfgs, each finished or
+    not (case["chainfin"]), and parts placed in hosts (the innermost chain builder or the body of an earlier
+    part, finished or not): functions (outputs declared through define_function / declare_outputs or not; body
+    empty or partly built; called by their host or not; set_outputs reached or not), Dfgs, Conditionals (each
+    case not requested / requested / finished), CFGs (blocks finished or not, exit branch or not), loops,
+    partial operations wired by a builder or merely added with Hugr.add_node.  Then one serialiser.  Nothing of
+    the HUGR is read back: the literal says which finishing calls were MADE."""
+    from hugr import ops, tys, val
+    from hugr.build.dfg import Dfg
+    from hugr.build.function import Module
+    Q = tys.Qubit
+    lit = []
+    module = None
+    depth = case["depth"]
+    cf = list(case.get("chainfin") or [])
+    cf = (cf + [True] * (depth + 1))[:depth + 1]
+    if case["root"] == "module":
+        module = Module()
+        top = module.define_function("main", [Q], [Q])
+        h = module.hugr
+    else:
+        top = Dfg(Q)
+        h = top.hugr
+    chain = [top]
+    for _ in range(depth):
+        chain.append(chain[-1].add_nested(chain[-1].inputs()[0]))
+    hosts = [chain[-1]]
+    stats = []
+    nfun = [0]
+
+    def fresh(prefix):
+        nfun[0] += 1
+        return "%s%d" % (prefix, nfun[0])
+
+    for p in case["parts"]:
+        what = p["what"]
+        hi = p.get("host", 0)
+        at_module = what == "func" and hi == "module" and module is not None
+        host = hosts[(hi if isinstance(hi, int) else 0) % len(hosts)]
+        q = host.inputs()[0]
+        if what == "func":
+            declared, fin = p["declared"], p["finished"]
+            outs = [Q] if declared == "define" else None
+            if at_module:
+                f = module.define_function(fresh("f"), [Q], outs)
+                caller = top
+            else:
+                f = host.define_function(fresh("f"), [Q], outs, parent=host.parent_node)
+                caller = host
+            if declared == "declare_outputs":
+                f.declare_outputs([Q])
+            w = f.inputs()[0]
+            for _ in range(p.get("body", 0)):
+                w = f.add_op(custom(1, [Q], "step"), w).out(0)
+            if fin:
+                f.set_outputs(w)
+            if p.get("called") and (declared or fin):
+                caller.call(f.parent_node, caller.inputs()[0])
+            hosts.append(f)
+            lit.append(gapp("PFunc", gbool(bool(declared)), gbool(fin)))
+            stats.append(("func:" + ("declared" if declared else "undeclared"), fin))
+        elif what == "dfg":
+            d = host.add_nested(q)
+            if p["finished"]:
+                d.set_outputs(*d.inputs())
+            hosts.append(d)
+            lit.append(gapp("PDfg", gbool(p["finished"])))
+            stats.append(("dfg", p["finished"]))
+        elif what == "cond":
+            cs = p["cases"]
+            sw = host.add_op(custom(0, [tys.Sum([[] for _ in cs])], "mk"))
+            c = host.add_conditional(sw.out(0), q)
+            for i, st in enumerate(cs):
+                if st == "n":
+                    continue
+                b = c.add_case(i)
+                if st == "f":
+                    b.set_outputs(*b.inputs())
+                hosts.append(b)
+            lit.append(gapp("PCond", glist({"n": "CNotRequested", "r": "CRequested", "f": "CFinished"}[st] for st in cs)))
+            # the Conditional creates all its Case nodes at once: a case never requested is as open as a requested one
+            stats.append(("cond", bool(cs) and all(st == "f" for st in cs)))
+        elif what == "cfg":
+            c = host.add_cfg(q)
+            blocks = []
+            for i, fin in enumerate(p["blocks"]):
+                b = c.add_entry() if i == 0 else c.add_block(Q)
+                if fin:
+                    b.set_single_succ_outputs(*b.inputs())
+                blocks.append(b)
+                hosts.append(b)
+            ex = bool(p["exit"] and p["blocks"] and p["blocks"][0])
+            if ex:
+                c.branch_exit(blocks[0][0])
+            lit.append(gapp("PCfg", glist(gbool(b) for b in p["blocks"]), gbool(ex)))
+            stats.append(("cfg", ex and all(p["blocks"])))
+        elif what == "loop":
+            t = host.add_tail_loop([], [q])
+            if p["finished"]:
+                sw = t.add_op(custom(0, [tys.Sum([[], []])], "mk"))
+                t.set_loop_outputs(sw.out(0), *t.inputs())
+            hosts.append(t)
+            lit.append(gapp("PLoop", gbool(p["finished"])))
+            stats.append(("loop", p["finished"]))
+        elif what == "op":
+            o, wired = p["op"], p["wired"]
+            if not wired:
+                op = {"noop": ops.Noop, "maketuple": ops.MakeTuple, "unpack": ops.UnpackTuple,
+                      "callindirect": ops.CallIndirect, "loadconst": ops.LoadConst}[o]()
+                h.add_node(op, host.parent_node)
+            elif o == "noop":
+                host.add_op(ops.Noop(), q)
+            elif o == "maketuple":
+                host.add_op(ops.MakeTuple(), q)
+            elif o == "unpack":
+                mt = host.add_op(ops.MakeTuple(), q)
+                host.add_op(ops.UnpackTuple(), mt.out(0))
+            elif o == "callindirect":
+                fv = host.add_op(custom(0, [tys.FunctionType([Q], [Q])], "mkfn"))
+                host.add_op(ops.CallIndirect(), fv.out(0), q)
+            else:
+                host.load(val.TRUE)
+            lit.append(gapp("POp", POPS[o], gbool(wired)))
+            stats.append(("op:" + o, wired))
+        else:
+            raise AssertionError(what)
+    for i in reversed(range(len(chain))):
+        b = chain[i]
+        if cf[i]:
+            b.set_outputs(*b.inputs())
+        if i == 0 and module is not None:
+            lit.append(gapp("PFunc", "true", gbool(cf[i])))
+            stats.append(("chain:main", cf[i]))
+        else:
+            lit.append(gapp("PDfg", gbool(cf[i])))
+            stats.append(("chain:dfg", cf[i]))
+    cms = pick_ctx(case, chain)                           # serialising from inside the builders' `with` blocks
+    via = case["via"]
+    exc = catch(lambda: in_ctx(cms, lambda: run_serialiser(h, via)))
+    return {"exc": exc, "parts_lit": lit, "nctx": len(cms), "unfinished": sorted(set(k for k, fin in stats if not fin)),
+            "via": via}
+
+
 OBSERVERS = {"wire": lambda c, T: obs_wire(c), "cond": obs_cond, "ifelse": obs_ifelse, "exit": obs_exit,
              "fnout": obs_fnout, "call": obs_call, "plainadd": obs_plainadd, "tidx": obs_tidx,
-             "serialise": obs_serialise}
+             "serialise": obs_serialise, "serparts": obs_serparts}
 
 
 # ------------------------------------------------------------------ generator
@@ -1013,10 +1183,76 @@ def gen_ctx(rng):
     return case
 
 
+def gen_serparts(rng):
+    """Round 5: a program of parts (functions with declared / undeclared outputs, Dfgs, Conditionals, CFGs, loops,
+    partial operations) in random hosts under a Module or Dfg root, mostly with exactly ONE thing left unfinished
+    (any kind, any position, incl. the chain itself), sometimes none or several; then a random serialiser."""
+    def func(fin):
+        return {"what": "func", "declared": rng.choice([None, "define", "define", "declare_outputs"]),
+                "finished": fin, "body": rng.choice([0, 0, 1, 2]), "called": rng.random() < 0.5,
+                "host": "module" if rng.random() < 0.4 else rng.randrange(64)}
+
+    def part(fin):
+        what = rng.choice(["func", "func", "func", "dfg", "cond", "cfg", "loop", "op"])
+        host = rng.randrange(64)
+        if what == "func":
+            return func(fin)
+        if what in ("dfg", "loop"):
+            return {"what": what, "finished": fin, "host": host}
+        if what == "op":
+            return {"what": "op", "op": rng.choice(sorted(POPS)), "wired": fin, "host": host}
+        if what == "cond":
+            n = rng.randint(1, 3)
+            if fin:
+                cs = ["f"] * n
+            elif rng.random() < 0.2:
+                cs = ["n"] * rng.randint(0, 2)          # no case requested at all / nothing to request
+            else:
+                cs = [rng.choice(["f", "f", "r", "n"]) for _ in range(n)]
+                if "r" not in cs:
+                    # a case that was never REQUESTED next to finished ones only: the property's serialisation
+                    # clause does not decide (is a missing case an incomplete operation?) - one is requested
+                    cs[rng.randrange(n)] = "r"
+            return {"what": "cond", "cases": cs, "host": host}
+        if fin:
+            return {"what": "cfg", "blocks": [True] * rng.randint(1, 3), "exit": True, "host": host}
+        blocks = [True] * rng.randint(0, 3)
+        ex = True
+        if blocks and rng.random() < 0.5:
+            blocks[rng.randrange(len(blocks))] = False
+            ex = rng.random() < 0.5
+        else:
+            ex = False
+        return {"what": "cfg", "blocks": blocks, "exit": ex, "host": host}
+
+    depth = rng.randint(0, 3)
+    n = rng.randint(0, 4)
+    chainfin = [True] * (depth + 1)
+    r = rng.random()
+    if r < 0.15:
+        fins = [True] * n
+    elif r < 0.8:
+        fins = [True] * n
+        k = rng.randrange(n + 1) if rng.random() < 0.8 else n
+        if k < n:
+            fins[k] = False
+        else:
+            chainfin[rng.randrange(depth + 1)] = False
+    else:
+        fins = [rng.random() < 0.6 for _ in range(n)]
+        chainfin = [rng.random() < 0.8 for _ in chainfin]
+    case = {"kind": "serparts", "root": rng.choice(["module", "module", "dfg"]), "depth": depth, "chainfin": chainfin,
+            "parts": [part(f) for f in fins], "via": rng.choice(["to_json", "to_json"] + SERIALISERS)}
+    if rng.random() < 0.25:
+        case["ctx"] = rng.choice([1, 3, 255])
+    return case
+
+
 GENS = [(gen_wire, 8), (gen_cond, 4), (gen_exit, 2), (gen_fnout, 2), (gen_call, 3), (gen_plainadd, 2),
         (gen_tidx, 2), (gen_serialise, 2),
         (gen_wire2, 4),          # appended last: the streams of the generators above are unchanged
-        (gen_cond_with, 4), (gen_ctx, 4)]      # round 4, appended after them for the same reason
+        (gen_cond_with, 4), (gen_ctx, 4),      # round 4, appended after them for the same reason
+        (gen_serparts, 4)]                     # round 5, likewise
 
 
 class C13(fw.Prop):
@@ -1035,6 +1271,10 @@ class C13(fw.Prop):
             "builders are also used as context managers: conditional sessions whose calls run uncaught inside "
             "`with cond:` / `with case:` / `with dfg:` blocks (whole programs over all cases with one inconsistency "
             "at a random position), and calls of every other class inside `with` blocks of their enclosing builders.  "
+            "round 5: programs of parts (functions with undeclared / declared outputs at module level or nested, Dfgs, "
+            "Conditionals, CFGs, loops, partial operations; hosts = the innermost chain builder or the body of an earlier "
+            "part) with mostly exactly one thing left unfinished at a random position (incl. the chain itself), then one of "
+            "Hugr.to_json / Package.to_json / to_bytes (binary, text) / to_str.  "
             "non-trivial = the call is refused, or it is an accepted inter-graph / inter-block wire, or a "
             "session with >= 2 accepted calls")
     trusted = ["the interpreter of case descriptions (harness/props/c13.py) and its knowledge of which kind of "
@@ -1046,6 +1286,9 @@ class C13(fw.Prop):
                "`with` blocks are real Python `with` statements on the builders (in_ctx); of a body only the calls "
                "that actually ran are presented; `with cond.add_case(i) as c: c.set_outputs(r)` is presented as the "
                "two calls in sequence (the Case context is transparent in the model)"]
+    trusted = trusted + ["the part interpreter obs_serparts makes exactly the calls its literal names (which finishing "
+                         "calls were made, which outputs were only declared, which operations were never wired); "
+                         "nothing is read back from the HUGR for KSerParts"]
     assumptions = ["the wire's target is the operation of the target builder, recorded or not by a refusal"]
 
     def __init__(self):
@@ -1125,6 +1368,39 @@ class C13(fw.Prop):
             {"kind": "plainadd", "builder": "loop", "depth": 0, "args": [[0, 0], 0], "nout": 1, "via": "add", "ctx": 1},
             {"kind": "tidx", "nin": 2, "track": True, "pre": [], "i": 5, "via": "add", "ctx": 1},
             {"kind": "serialise", "root": "dfg", "depth": 1, "parts": [{"what": "cfg", "finish": False}], "ctx": 3},
+            # seeded round 5 (C13-i): declaring a function's outputs is not building them.  define_function(name,
+            # ins, outs) used by the finished main, never built (to_json / Package); declare_outputs on a function
+            # nested in a Dfg; body partly built; main itself declared and left open; the ordinary use (declared,
+            # called, built) serialises.  Then the other ways of leaving something open: no case requested, a case
+            # never requested next to an open one, CFG without exit branch, partial operations never wired
+            {"kind": "serparts", "root": "module", "depth": 0, "via": "to_json",
+             "parts": [{"what": "func", "declared": "define", "finished": False, "body": 0, "called": True, "host": "module"}]},
+            {"kind": "serparts", "root": "module", "depth": 0, "via": "pkg_json",
+             "parts": [{"what": "func", "declared": "define", "finished": False, "body": 0, "called": False, "host": "module"}]},
+            {"kind": "serparts", "root": "module", "depth": 0, "via": "pkg_bytes",
+             "parts": [{"what": "func", "declared": "declare_outputs", "finished": False, "body": 0, "called": True, "host": "module"}]},
+            {"kind": "serparts", "root": "dfg", "depth": 0, "via": "to_json",
+             "parts": [{"what": "func", "declared": "declare_outputs", "finished": False, "body": 0, "called": False, "host": 0}]},
+            {"kind": "serparts", "root": "module", "depth": 0, "via": "to_json",
+             "parts": [{"what": "func", "declared": "define", "finished": False, "body": 1, "called": False, "host": "module"}]},
+            {"kind": "serparts", "root": "module", "depth": 1, "chainfin": [False, True], "via": "pkg_str", "parts": []},
+            {"kind": "serparts", "root": "dfg", "depth": 2, "via": "to_json", "ctx": 3,
+             "parts": [{"what": "dfg", "finished": True, "host": 0},
+                       {"what": "func", "declared": "define", "finished": False, "body": 2, "called": True, "host": 1}]},
+            {"kind": "serparts", "root": "module", "depth": 0, "via": "to_json",
+             "parts": [{"what": "func", "declared": "define", "finished": True, "body": 1, "called": True, "host": "module"},
+                       {"what": "func", "declared": None, "finished": True, "body": 0, "called": True, "host": 0}]},
+            {"kind": "serparts", "root": "module", "depth": 0, "via": "to_json",
+             "parts": [{"what": "func", "declared": None, "finished": False, "body": 0, "called": False, "host": "module"}]},
+            {"kind": "serparts", "root": "dfg", "depth": 0, "via": "pkg_text_bytes", "parts": [{"what": "cond", "cases": ["n", "n"], "host": 0}]},
+            {"kind": "serparts", "root": "dfg", "depth": 1, "via": "to_json", "parts": [{"what": "cond", "cases": ["f", "r", "n"], "host": 0}]},
+            {"kind": "serparts", "root": "dfg", "depth": 0, "via": "pkg_json", "parts": [{"what": "cfg", "blocks": [True, True], "exit": False, "host": 0}]},
+            {"kind": "serparts", "root": "module", "depth": 0, "via": "to_json",
+             "parts": [{"what": "loop", "finished": True, "host": 0}, {"what": "op", "op": "maketuple", "wired": False, "host": 1}]},
+            {"kind": "serparts", "root": "dfg", "depth": 0, "via": "to_json",
+             "parts": [{"what": "op", "op": o, "wired": True, "host": 0} for o in sorted(POPS)]
+                      + [{"what": "cond", "cases": ["f", "f"], "host": 0}, {"what": "cfg", "blocks": [True, True], "exit": True, "host": 0}]},
+            {"kind": "serparts", "root": "dfg", "depth": 0, "via": "to_json", "parts": [{"what": "op", "op": "callindirect", "wired": False, "host": 0}]},
         ]
 
     def generate(self, rng, tier, ctx):
@@ -1166,6 +1442,8 @@ class C13(fw.Prop):
                         gZ(case["i"]), gexc(o["exc"]))
         if k == "serialise":
             return gapp("KSerialise", glist(glist("(Some [])" if f else "None" for f in n) for n in o["nodes"]), gexc(o["exc"]))
+        if k == "serparts":
+            return gapp("KSerParts", glist(o["parts_lit"]), gexc(o["exc"]))
         raise AssertionError(k)
 
     def nontrivial(self, case, o):
@@ -1178,7 +1456,7 @@ class C13(fw.Prop):
         return o["exc"] is not None
 
     def describe(self, case, obs):
-        o = {k: v for k, v in obs.items() if k != "ops_lit"}
+        o = {k: v for k, v in obs.items() if k not in ("ops_lit", "parts_lit")}
         return {"input": case, "observed": o}
 
     def signature(self, case, o, ctx):
@@ -1220,6 +1498,20 @@ class C13(fw.Prop):
                 yield {**case, "parts": p[:i] + p[i + 1:]}
             if case["depth"] > 0:
                 yield {**case, "depth": case["depth"] - 1}
+        elif k == "serparts":
+            p = case["parts"]
+            for i in range(len(p)):
+                yield {**case, "parts": p[:i] + p[i + 1:]}
+            if case["depth"] > 0:
+                yield {**case, "depth": case["depth"] - 1, "chainfin": (case.get("chainfin") or [])[:case["depth"]] or None}
+            if case.get("chainfin") and not all(case["chainfin"]):
+                yield {**case, "chainfin": None}
+            for i, q in enumerate(p):
+                for key, simple in (("host", 0), ("called", False), ("body", 0)):
+                    if key in q and q[key] != simple and not (key == "host" and q[key] == "module"):
+                        yield {**case, "parts": p[:i] + [{**q, key: simple}] + p[i + 1:]}
+            if case["via"] != "to_json":
+                yield {**case, "via": "to_json"}
         elif k == "tidx":
             p = case["pre"]
             for i in range(len(p)):
@@ -1234,7 +1526,8 @@ class C13(fw.Prop):
     def neighbours(self, case, rng):
         out = list(self.shrink(case))
         gen = {"wire": gen_wire, "cond": gen_cond, "ifelse": gen_cond, "exit": gen_exit, "fnout": gen_fnout,
-               "call": gen_call, "plainadd": gen_plainadd, "tidx": gen_tidx, "serialise": gen_serialise}[case["kind"]]
+               "call": gen_call, "plainadd": gen_plainadd, "tidx": gen_tidx, "serialise": gen_serialise,
+               "serparts": gen_serparts}[case["kind"]]
         if case["kind"] == "wire":
             for s in range(0, 256, 3):
                 for t in range(0, 16):
@@ -1265,6 +1558,10 @@ class C13(fw.Prop):
             for dk, dv in o.get("diag", {}).items():
                 df = d.setdefault("diagnostic only, no verdict (model drift): " + dk, {})
                 df[str(dv)] = df.get(str(dv), 0) + 1
+            if k == "serparts":
+                u = e.setdefault("left_unfinished:serialiser:outcome", {})
+                key = "%s:%s:%s" % ("+".join(o["unfinished"]) or "nothing", o["via"], o["exc"])
+                u[key] = u.get(key, 0) + 1
             if k == "wire":
                 dd = e.setdefault("target_depth", {})
                 dd[str(o["depth_tgt"])] = dd.get(str(o["depth_tgt"]), 0) + 1
